@@ -120,6 +120,9 @@ def gen(rng, tier):
         v = "v:pubfile:-:0"
         yield "h %s %s" % (hx(base.enc()), " ".join([U(fa), v, U(fb), v, "s", U(fa), v, U(fc), v, v, "c"]))
         yield "h %s %s" % (hx(base.enc()), " ".join([U(fc), v, U(fa), v, "a:pubfile:-:0", U(fb), "a:pubfile:-:0", "s"]))
+        # the caller's own publications file in the verification context decides, whatever file the context has fetched itself
+        VU = lambda f, pol="pubfile": "vu:%s:%s" % (hx(f), pol)   # noqa: E731
+        yield "h %s %s" % (hx(base.enc()), " ".join([U(fb), v, VU(fa), VU(fc), VU(fb), v, VU(fa, "general"), "s", U(fa), VU(fb), VU(fc), v, "c"]))
     # the same URL, other content: with a cache lifetime of 0 every use fetches the file again
     for _ in range(3 if not big else 30):
         base = S.build(rng, with_cal=True, anchor="pub")
